@@ -358,13 +358,17 @@ def r08_8(ctx) -> None:
     aes = P.cls(M + "AESAlgModel")
     w = [n for n in fn_nodes(aes.methods["wrap_cek"]) if isinstance(n, ast.Call) and norm(n.func) == "aes_key_wrap"]
     u = [n for n in fn_nodes(aes.methods["unwrap_cek"]) if isinstance(n, ast.Call) and norm(n.func) == "aes_key_unwrap"]
-    ok = len(w) == 1 and [norm(a) for a in w[0].args[:2]] == ["key", "cek"] and len(u) == 1 and [norm(a) for a in u[0].args[:2]] == ["key", "ek"]
+    wf, uf = aes.methods["wrap_cek"], aes.methods["unwrap_cek"]
+    ok = len(w) == 1 and [resolve_all(eng, wf, a) for a in w[0].args[:2]] == [[wf.pos_params[2]], [wf.pos_params[1]]] and len(u) == 1 \
+        and [resolve_all(eng, uf, a) for a in u[0].args[:2]] == [[uf.pos_params[2]], [uf.pos_params[1]]]
     ctx.check(ok, "R08.8", aes.methods["wrap_cek"], None, "AES key wrap", "AxKW is not RFC 3394 aes_key_wrap(kek, cek) / aes_key_unwrap(kek, encrypted key)", "aes_key_wrap(key, cek) / aes_key_unwrap(key, ek)",
               construct="AES-KW calls")
     rsa = P.cls(M + "RSAAlgModel")
     e = [n for n in fn_nodes(rsa.methods["encrypt_cek"]) if isinstance(n, ast.Call) and isinstance(n.func, ast.Attribute) and n.func.attr == "encrypt"]
     d = [n for n in fn_nodes(rsa.methods["decrypt_cek"]) if isinstance(n, ast.Call) and isinstance(n.func, ast.Attribute) and n.func.attr == "decrypt"]
-    ok = len(e) == 1 and [norm(a) for a in e[0].args] == ["cek", "self.padding"] and len(d) == 1 and [norm(a) for a in d[0].args] == ["recipient.encrypted_key", "self.padding"]
+    ef, df = rsa.methods["encrypt_cek"], rsa.methods["decrypt_cek"]
+    ok = len(e) == 1 and [resolve_all(eng, ef, a) for a in e[0].args] == [[ef.pos_params[1]], [f"{ef.self_name}.padding"]] and len(d) == 1 \
+        and [resolve_all(eng, df, a) for a in d[0].args] == [[f"{df.pos_params[1]}.encrypted_key"], [f"{df.self_name}.padding"]]
     ctx.check(ok, "R08.8", rsa.methods["encrypt_cek"], None, "RSA key encryption", "RSA key encryption does not use the model's padding on the CEK / encrypted key", "op_key.encrypt(cek, padding) / decrypt(encrypted_key, padding)",
               construct="RSA key encryption calls")
     g = P.cls(M + "AESGCMAlgModel")
